@@ -14,6 +14,7 @@ from __future__ import annotations
 from typing import Iterator, List, overload, Optional
 from typing_extensions import Literal
 
+from spil import conf
 from spil.sid.sid import Sid
 from spil.sid.read.util import first
 from spil.sid.read.tools import unfold_search
@@ -77,9 +78,9 @@ class Finder:
         Returns:
             Generator over Sids or strings
         """
-        # shortcut if Sid is not a search
+        # shortcut if Sid is not a search (an extension alias as last value still needs unfolding)
         sid = Sid(search_sid)
-        if sid and not sid.is_search():
+        if sid and not sid.is_search() and str(sid).split(conf.sip)[-1] not in conf.extension_alias:
             generator = self.do_find([sid], as_sid=as_sid)
         else:
             search_sids = unfold_search(search_sid)
